@@ -92,7 +92,33 @@ class ScalarLaw:
 # ------------------------------------------------------------------ sources
 
 def gen_levels(rng, n, amp):
-    mode = rng.choice(["walk", "walk", "zigzag", "nested", "extremes"])
+    mode = rng.choice(["walk", "walk", "zigzag", "nested", "extremes", "m3_after_m2"])
+    if mode == "m3_after_m2":
+        # inner loops left open, then a new overall extreme: closing them (Memory 2) brings the
+        # stack down to the primary points and the new extreme is a Memory 3 event
+        out = []
+        e = rng.randint(1, max(1, amp // 2))
+        sign = rng.choice([-1, 1])
+        while len(out) < n:
+            out.append(sign * e)
+            lo, hi = -e + 1, e - 1
+            k = rng.randint(0, 3)
+            cur_hi = sign > 0
+            for _ in range(k):
+                if hi - lo < 1:
+                    break
+                if cur_hi:
+                    lo2 = rng.randint(lo, hi - 1)
+                    out.append(lo2)
+                    lo = lo2 + 1 if rng.random() < 0.7 else lo2
+                else:
+                    hi2 = rng.randint(lo + 1, hi)
+                    out.append(hi2)
+                    hi = hi2 - 1 if rng.random() < 0.7 else hi2
+                cur_hi = not cur_hi
+            e += rng.randint(1, 2)
+            sign = -sign if rng.random() < 0.8 else sign
+        return out[:max(n, 2)]
     if mode == "walk":
         return [rng.randint(-amp, amp) for _ in range(n)]
     if mode == "zigzag":
@@ -184,6 +210,17 @@ def refine(rng, lv, junction, density):
     return out
 
 
+def turn_at_zero_junction(lv):
+    """Is the last sample a turning point if the zero-prefixed sequence [0] + lv follows
+    (plateaus looked through)?"""
+    last = lv[-1]
+    prev = next((x for x in reversed(lv[:-1]) if x != last), None)
+    nxt = next((x for x in [0] + list(lv) if x != last), None)
+    if prev is None or nxt is None:
+        return False
+    return (last - prev) * (nxt - last) < 0
+
+
 def junction_class(lv):
     first, last = lv[0], lv[-1]
     sgn = lambda v: "+" if v > 0 else "-" if v < 0 else "0"   # noqa
@@ -205,13 +242,30 @@ def junction_class(lv):
     elif pos[0] == 0:
         f.append("maxstart")
     # turn at the zero junction?
-    prev = next((x for x in reversed(lv[:-1]) if x != last), None)
-    if prev is not None:
-        f.append("zturn" if (last - prev) * (0 - last) < 0 else "nozturn")
+    f.append("zturn" if turn_at_zero_junction(lv) else "nozturn")
+    if last == 0:
+        f.append("lastzero")
     return ".".join(f)
 
 
 # ------------------------------------------------------------------ real-code driver
+
+def as_container(loads, kind):
+    """The same numbers in another container / dtype (all values are integers that fit)."""
+    if kind == "list":
+        return [float(x) for x in loads]
+    if kind == "i64":
+        return loads.astype(np.int64)
+    if kind == "i32":
+        return loads.astype(np.int32)
+    if kind == "i16":
+        return loads.astype(np.int16) if float(np.max(np.abs(loads))) < 32000 else loads.astype(np.int32)
+    if kind == "f32int":
+        return loads.astype(np.float32)
+    if kind == "series":
+        return pd.Series(loads, index=pd.RangeIndex(3, 3 + len(loads)))
+    return loads
+
 
 def run_two_pass(loads, law, second=True):
     """loads: 1-D float array (single point) or Series (load_step, node_id)."""
@@ -263,7 +317,8 @@ def generate(prop, rng, tier):
         step = rng.choice([10.0, 25.0, 50.0, 100.0])
         tr = {"world": NAME, "levels": lv, "step": step, "law": rng.choice(["EN", "EN", "EN", "SB"]),
               "mat": rng.randrange(len(MATERIALS)), "bins": rng.choice([10, 20, 50]),
-              "twin": None}
+              "twin": None,
+              "container": rng.choice(["f64", "f64", "f64", "list", "i64", "i32", "i16", "series", "f32int"])}
         if rng.random() < 0.3:
             # J3 twin: interior-only refinement, compared per pass with the base
             tr["twin"] = refine(rng, lv, junction=False, density=rng.choice([0.3, 0.7]))
@@ -432,9 +487,10 @@ def exec_c04(trace, out, log):
                 return
     else:
         law = get_law(trace["law"], int(trace["mat"]), big * 1.0731, int(trace["bins"]))
-        det, rec, _ = run_two_pass(loads, law)
+        det, rec, _ = run_two_pass(as_container(loads, trace.get("container", "f64")), law)
         rows = collective_rows(rec)
         out.steps += 2
+        out.count("container:" + trace.get("container", "f64"))
     log.add("rows", [[r[k] for k in ("loads_min", "loads_max", "is_closed_hysteresis", "run_index")] for r in rows])
     want = Counter((a * step, b * step) for a, b in per.periodic_cycles(lv))
     jc = junction_class(lv)
@@ -522,7 +578,7 @@ def compare_rows(got, want, label, out, ctx, tol=TOL):
     when S_max is close to zero: it is checked for consistency with the row's
     own S_min/S_max (which are compared with the reference) instead."""
     if len(got) != len(want):
-        out.violate(label, "row-count", dict(ctx, got=len(got), want=len(want),
+        out.violate(label, "rows", dict(ctx, column="row-count", got=len(got), want=len(want),
                                              got_loads=[[r["loads_min"], r["loads_max"], r["run_index"]] for r in got][:30],
                                              want_loads=[[r["loads_min"], r["loads_max"], r["run_index"]] for r in want][:30]))
         return False
@@ -543,7 +599,7 @@ def compare_rows(got, want, label, out, ctx, tol=TOL):
                 else:
                     ok = abs(g["R"] * g["S_max"] - g["S_min"]) <= 1e-12 * max(abs(g["S_min"]), abs(g["S_max"]), 1e-300) * max(1.0, abs(g["R"]))
                 if not ok:
-                    out.violate(label, "R", dict(ctx, row=i, column="R", got=g["R"], S_min=g["S_min"], S_max=g["S_max"], want=w["R"]))
+                    out.violate(label, "rows", dict(ctx, row=i, column="R", got=g["R"], S_min=g["S_min"], S_max=g["S_max"], want=w["R"]))
                     return False
                 continue
             if isinstance(w[k], bool) or k == "run_index":
@@ -551,7 +607,7 @@ def compare_rows(got, want, label, out, ctx, tol=TOL):
             else:
                 ok = (math.isnan(g[k]) and math.isnan(w[k])) or abs(g[k] - w[k]) <= tol * sc[k]
             if not ok:
-                out.violate(label, k, dict(ctx, row=i, column=k, got=g[k], want=w[k],
+                out.violate(label, "rows", dict(ctx, row=i, column=k, got=g[k], want=w[k],
                                            loads=[w["loads_min"], w["loads_max"]], run_index=w["run_index"]))
                 return False
     return True
@@ -921,11 +977,9 @@ def _c04_known_configuration(lv, step, missing, surplus):
     are counted twice: nothing is missing and the surplus consists only of
     cycles closed by the last sample."""
     last = lv[-1]
-    prev = next((x for x in reversed(lv[:-1]) if x != last), None)
-    if prev is None or missing or not surplus:
+    if missing or not surplus:
         return None
-    zturn = (last - prev) * (0 - last) < 0
-    if not per.is_periodic_reversal_last(lv) or zturn:
+    if not per.is_periodic_reversal_last(lv) or turn_at_zero_junction(lv):
         return None
     closed = Counter({(a * step, b * step): n for (a, b), n in _cycles_closed_by_last(lv).items()})
     sur = Counter((float(a), float(b)) for a, b in surplus)
